@@ -33,6 +33,8 @@ var Corpus = map[string][]string{
 		"a: &x {b: {<<: *x}, c: 1}\nd: *x\n",
 		"a: &x {<<: [*x]}\n",
 		"base: &b {k: 1, self: *b}\nuse: {<<: *b, own: 2}\nlist: [*b, *b]\n",
+		// keys with the same text: repeated, or differing in type only
+		"b: 1\na: 2\nb: 3\n", "{1: a, \"1\": b, c: 0}\n", "x: {k: 1, k: 2, j: 0}\ny: [{true: 1, \"true\": 2}]\n", "~: 1\nnull: 2\n\"\": 3\n\"\": 4\n",
 		// empty containers; comments that are nothing but the indicator
 		"a: []\nb: {}\nc: [[]]\n", "[]\n", "- []\n- [1]\n", "a: [1]\n---\na: []\n",
 		"#\na: 1\n", "# \n#\n---\n#\nb: 2 #\n", "a: 1 #\nb: #\n  - 1\n#\n",
@@ -43,6 +45,7 @@ var Corpus = map[string][]string{
 	},
 	"json": {
 		`{"a":1,"b":[1,2,3],"c":{"x":"y"},"d":null,"e":true,"f":1.5e10}`,
+		`{"b":1,"a":2,"b":3}`, `{"x":{"k":1,"k":2},"k":[{"":1,"":2}]}`,
 		`[1,"two",[3,[4,{"five":5}]],{},[],""]`,
 		`{"a":9007199254740993,"b":-0.0,"c":1E400,"d":"\ud83d\ude00 \u0000 \"q\" \\ \/"}`,
 		"{\"a\":1}\n{\"b\":2}\n[3]\n\"s\"\n4\nnull\n",
